@@ -181,6 +181,16 @@ CLAIMS = {
         "the exact Gaussian-rational model on polynomial data; the NaN-mask model on arrays mixing singular and regular points. Partial: "
         "truncation for non-polynomial kernels, rounding, and the selection on complex data are explored by the search (g x kernels x paths).",
    technique="Lean 4 proof (corollaries of the Richardson theorem, list frame lemma) + exact-rational correspondence + oracle search"),
+ 'C17': dict(
+   text="Lean 4 theorems for the parts of the FFT Taylor module that are logic: num_coefficients (for every n < 193 the number of coefficients "
+        "computed is in {8,...,256} and >= n+1; n >= 193 raises); dft_aliasing (for a polynomial and a primitive m-th root of unity, the k-th "
+        "DFT coefficient of the samples on a circle of radius r is the sum of a_l r^l over l = k mod m - the identity the method rests on; "
+        "Mathlib IsPrimitiveRoot, geom_sum); extrapolate_removes_two_terms (if bs_t = a + beta r_t^m + gamma r_t^2m the two Richardson passes of "
+        "_extrapolate return a in every entry); failed_iff_cap (failed is set exactly when no iteration reported convergence, and then all "
+        "max_iter iterations ran). Tie: _num_taylor_coefficients exhaustively for n = 1..199, _extrapolate on dyadic data vs the Rat model, the "
+        "iteration loop replayed from the recorded convergence flags. Partial: FFT rounding, the heuristic radius search and the "
+        "accuracy-vs-estimate claim are explored by the search against closed-form series (one known finding recorded).",
+   technique="Lean 4 proof (roots of unity / geometric sums, Richardson algebra, loop invariant) + exact correspondence + oracle search"),
 }
 
 checks = []
